@@ -258,6 +258,12 @@ func runTx(prop string, args []string) {
 						if x := limMax * catchVarScale[limVar]; math.Abs(x-math.Round(x)) < 0.25 {
 							limMax = (math.Round(x) + 0.5) / catchVarScale[limVar]
 						}
+						if limVar >= 4 && p.chance(0.15) {
+							// the smallest legal limit, exactly 0, on a cost variable: costs sit on whole cents, so every value
+							// is either exactly 0 or at least a cent away and the comparison is exact in float64 too
+							limMax = 0
+							stats["limit_exactly_zero"]++
+						}
 						prm = parameters.Map{catchLimitKeys[limVar]: limMax}
 						limit = J{"var": limVar, "max": flOf(limMax)}
 					}
